@@ -41,7 +41,12 @@ import (
 // (without, the longest) and 2 (IPv6 address).
 var c15fEvents = []string{"w0", "w1", "w2", "full", "heal", "rotate"}
 
-var c15fSpecOf = map[string]int{"w0": 0, "w1": 1, "w2": 2}
+var c15fSpecOf = map[string]int{"w0": 0, "w1": 1, "w2": 2, "w6": 6, "w7": 7, "w8": 8}
+
+// c15fSizeEvents is the alphabet of the part "file-sizes": records of about
+// 230 B, just under 1024 B, about 1100 B and about 4 KiB, in every order, on
+// one FileSystem (one pooled buffer).
+var c15fSizeEvents = []string{"w0", "w6", "w7", "w8"}
 
 type c15fCase struct {
 	Events []string `json:"events"`
@@ -253,12 +258,46 @@ func c15fPart(r *vrt.Run) {
 		r.Bound("file_fault_history_length", maxLen)
 		r.Bound("file_fault_events", strings.Join(c15fEvents, " "))
 	}
+	c15fSizesPart(r)
 	vrt.Part(r, "file-faults",
 		func(emit func(c15fCase)) {
 			vrt.Sequences(len(c15fEvents), 1, maxLen, func(seq []int) {
 				evs := make([]string, len(seq))
 				for i, k := range seq {
 					evs[i] = c15fEvents[k]
+				}
+				emit(c15fCase{Events: evs})
+			})
+		},
+		func(c c15fCase) []vrt.Finding { return c15fRun(r, c) },
+	)
+}
+
+// c15fSizesPart runs every order of records of the four sizes.
+func c15fSizesPart(r *vrt.Run) {
+	maxLen := vrt.Pick(r, 3, 4)
+	// Harness self-check: the encoded sizes are the intended ones.
+	for ev, rng := range map[string][2]int{"w0": {150, 400}, "w6": {900, 1023}, "w7": {1050, 1400}, "w8": {3900, 6000}} {
+		sp := c15wSpecs[c15fSpecOf[ev]]
+		b, err := json.Marshal(json.RawMessage(sp.want()))
+		if err != nil {
+			vrt.Fatalf("sizes: %v", err)
+		}
+		// The real line also has "rn" (at most 11 bytes) and the newline.
+		if n := len(b) + 12; n < rng[0] || n > rng[1] {
+			vrt.Fatalf("sizes: the record of %s has about %d bytes, want %d..%d", ev, n, rng[0], rng[1])
+		}
+	}
+	if !r.Replaying() {
+		r.Bound("file_size_history_length", maxLen)
+		r.Bound("file_size_events", "about 230 B / just under 1024 B / about 1100 B / about 4 KiB")
+	}
+	vrt.Part(r, "file-sizes",
+		func(emit func(c15fCase)) {
+			vrt.Sequences(len(c15fSizeEvents), 1, maxLen, func(seq []int) {
+				evs := make([]string, len(seq))
+				for i, k := range seq {
+					evs[i] = c15fSizeEvents[k]
 				}
 				emit(c15fCase{Events: evs})
 			})
